@@ -19,6 +19,38 @@ SYNC_H = "GeckoPartialStatusBlockProtocolHandler"
 INSTALL = "replace_status_block_segment"
 
 
+def statp_decodes_in_wire_order(ctx, repo, cname, fname):
+    """R3 by symbolic interpretation: a STATP message built by the repository's own builder from the records
+    [(pos0, w0), (pos1, w1)] (symbolic 16-bit positions and words) is decoded by this handler into exactly
+    that list, in that order, each element a (position, data) pair"""
+    from ..absint import Interp, Native, Obj, PyRaise, Undecided
+    from ..symbytes import SymBytes
+    from . import c04
+    fi = repo.method(cname, fname)
+    interp = Interp(repo, max_depth=10)
+    try:
+        spec = [t for t in c04.message_table() if t[0] == SYNC_H and t[1] == "report_changes"][0]
+        msg = c04.build_message(repo, interp, SYNC_H, "report_changes", spec[2])
+        wire = SymBytes.of(c04.wire_of(msg))
+        sock = Obj(None, {"queue_send": Native(lambda a, k: None), "get_and_increment_sequence_counter": Native(lambda a, k: c04.F("ackseq", 8))}, name="socket")
+        if cname == ASYNC_H:
+            rx = c04.new_handler(repo, interp, cname, [sock])
+        else:
+            rx = c04.fresh_handler(repo, interp, repo.cls(cname), sock)
+        interp.steps = 0
+        interp.call(fi, rx, [wire, ("10.0.0.1", 10022)])
+        got = c04.read_field(interp, rx, "changes")
+    except PyRaise as e:
+        ctx.ob("R3", f"{fi.qual}::records-in-wire-order", False, f"{fi.qual} raises {e.what} on a two-record STATP", fi.loc)
+        return
+    except Undecided as e:
+        raise AnalysisError(f"{fi.qual}: STATP decode cannot be interpreted: {e}")
+    ok, why = c04.compare(("changes", [("pos0", "w0"), ("pos1", "w1")]), got)
+    ctx.ob("R3", f"{fi.qual}::records-in-wire-order", ok,
+           f"{fi.qual}: a STATP carrying records [(pos0, w0), (pos1, w1)] is not decoded into that list in that order: {why}", fi.loc,
+           sample={"rule": "R3", "handler": fi.qual, "decoded": str(got)[:200]})
+
+
 def decode_path(ctx, repo, cname, fname, reset_required):
     fi = repo.own_method(cname, fname)
     g = cfg_of(fi)
@@ -36,10 +68,7 @@ def decode_path(ctx, repo, cname, fname, reset_required):
     ctx.ob("R1", f"{key}::decode-only-on-STATP", on_statp, f"{fi.qual}: change records are decoded on the STATQ path too; guards {sorted(facts)}", loc(fi, A.ast))
     loop = g.loop_of(A)
     ctx.ob("R3", f"{key}::record-loop", loop is not None and loop.kind == "for", f"{fi.qual}: change records not decoded in a for loop", loc(fi, A.ast))
-    if loop is not None and loop.kind == "for":
-        it = loop.ast.iter
-        ok = isinstance(it, ast.Call) and call_name(it) == "range" and len(it.args) == 1
-        ctx.ob("R3", f"{key}::records-in-wire-order", ok, f"{fi.qual}: records are not decoded front to back with range(count) (`{ast.unparse(it)}`)", loc(fi, loop.ast))
+    statp_decodes_in_wire_order(ctx, repo, cname, fname)
     resets = [n for n in g.stmt_nodes() if assigns_attr(n, "self.changes") and isinstance(n.ast, ast.Assign)
               and isinstance(n.ast.value, ast.List) and not n.ast.value.elts]
     if reset_required:
@@ -62,10 +91,6 @@ def decode_path(ctx, repo, cname, fname, reset_required):
                        f"{fi.qual}: self.changes is emptied *after* decoding (L{r.lineno}): every change is dropped", loc(fi, r.ast))
     other_writes = [n for n in g.stmt_nodes() if assigns_attr(n, "self.changes") and n not in resets]
     ctx.ob("R1", f"{key}::no-other-writes", not other_writes, f"{fi.qual}: self.changes also written at {[n.lineno for n in other_writes]}", fi.loc)
-    # appended element is (pos, data) decoded from the same record i
-    el = ac.args[0] if ac.args else None
-    ok = isinstance(el, ast.Tuple) and len(el.elts) == 2
-    ctx.ob("R3", f"{key}::record-shape", ok, f"{fi.qual}: appended change is not a (position, data) pair", loc(fi, A.ast))
 
     # R4 acknowledgement
     sends = calls_named(g, "queue_send")
